@@ -38,6 +38,8 @@ struct Flags {
     ms: u32,
     /// apply the threshold setters before every other setter (builder call order, seed C13d)
     thr_first: bool,
+    /// call with_escaping_of_non_ascii_chars(true) before the call with the requested value (last call wins, seed C11e)
+    esc_twice: bool,
 }
 
 fn parse_flags(v: &Value) -> Flags {
@@ -45,6 +47,7 @@ fn parse_flags(v: &Value) -> Flags {
         mr: v["mr"].as_u64().unwrap_or(1) as u32,
         ms: v["ms"].as_u64().unwrap_or(1) as u32,
         thr_first: v["thr_first"].as_bool().unwrap_or(false),
+        esc_twice: v["esc_twice"].as_bool().unwrap_or(false),
         ..Default::default()
     };
     for name in v["f"].as_str().unwrap_or("").split(',') {
@@ -108,6 +111,9 @@ fn mk_builder(tcs: &[String], f: &Flags) -> RegExpBuilder {
         b.with_capturing_groups();
     }
     if f.esc {
+        if f.esc_twice {
+            b.with_escaping_of_non_ascii_chars(true);
+        }
         b.with_escaping_of_non_ascii_chars(f.sur);
     }
     if f.verbose {
